@@ -259,8 +259,9 @@ def native_checks(pid, mine, registry, reports, tier, seed):
                 budget = 3000 if tier == 'quick' else 40000
             if len(ins) > budget:
                 ins = rng.sample(ins, budget)
-            for k in range(0, len(ins), 50):
-                jobs.append(('rt', ri, case, ins[k:k + 50]))
+            chunk = getattr(con, 'native_chunk', 50)        # slow harnesses (real subprocesses): one input per job
+            for k in range(0, len(ins), chunk):
+                jobs.append(('rt', ri, case, ins[k:k + chunk]))
             if rp['rep'] is not None and not rp['error'] and con.deductive:
                 xin = ins[:200 if tier == 'quick' else 3000]
                 for k in range(0, len(xin), 50):
